@@ -58,7 +58,7 @@ OTHER_CMDS = {
 OTHER_CMDS["js"] = OTHER_CMDS["ts"]
 FAM_CMD = dict(seeds.FAMILY_CMD, srploc="srp", decoy="magic-numbers", exempt="magic-numbers", cloneuse="clone-abuse", filler=None)
 RUN_LEN = 5  # statements in a planted duplicate run (seeds.dry_set default)
-REF = re.compile(r"([\w./-]+\.(?:py|ts|js|rs)):(\d+)(?:-(\d+))?")
+REF = re.compile(r"([\w./-]+\.(?:py|ts|js|rs)|\btool):(\d+)(?:-(\d+))?")  # `tool` = the extension-less script of the "script" layout
 
 
 # ------------------------------------------------------------------------------------ building projects
